@@ -11,11 +11,12 @@ IMPORTS = CASES_HEADER + "From PV Require Import Base.CasesLib C12.ExecModel C12
 CORPUS = os.path.join(VERIF, "harness", "corpus", "c12.jsonl")
 
 # sizes per tier: scripted programs, programs on the shipped simulators, repetitions of the array sizes
-NPROG = {"quick": 80, "thorough": 1200}
+NPROG = {"quick": 100, "thorough": 1200}
 NREAL = {"quick": 4, "thorough": 24}
 NARR = {"quick": 1, "thorough": 3}
 
-VARIANTS = {1: "repaired", 2: "current", 4: "try/finally only", 8: "caller's string kept only"}
+VARIANTS = {1: "repaired", 2: "before the fixes", 4: "try/finally only", 8: "caller's string kept only",
+            16: "try/finally + string kept, validation not moved up front"}
 
 
 # ----------------------------------------------------------------------------- Coq terms
@@ -80,7 +81,8 @@ Fixpoint codes (va : bool) (sd sh : option Z) (ini : option (bool * Z)) (prog : 
   | expd :: r =>
     let hk := match k with O => h | S p => firstn p h ++ [EvRaise] end in
     let m (v : variant) (w : Z) := if pack (ser_run (execute v va sd sh ini prog hk)) =? expd then w else 0 in
-    (m repaired 1 + m current 2 + m (mkV true false) 4 + m (mkV false true) 8) :: codes va sd sh ini prog h (S k) r
+    (m repaired 1 + m current 2 + m (mkV true false false) 4 + m (mkV false true false) 8
+     + m (mkV true true false) 16) :: codes va sd sh ini prog h (S k) r
   end.
 Definition code (x : bool * option Z * option Z * option (bool * Z) * list instr * hist * list Z) : list Z :=
   let '(va, sd, sh, ini, prog, h, exps) := x in codes va sd sh ini prog h O exps.
@@ -115,6 +117,8 @@ def gen_stub_program(rng):
     active = list(range(d))
     wild = rng.random() < 0.25           # malformed stream: out-of-range / inactive modes, unknown classes
     for idx in range(n):
+        if not active and not wild:
+            break                            # every mode has been measured
         r = rng.random()
         if idx == 0 and r < 0.5:
             kind = "P"
@@ -131,9 +135,11 @@ def gen_stub_program(rng):
         else:
             m = rng.randint(1, min(len(pool), 3))
             modes = rng.sample(pool, m)
+        if wild and modes and rng.random() < 0.12:
+            modes = modes + [modes[0]]           # repeated mode
         nmodes = None
         if rng.random() < 0.5:
-            nmodes = len(modes) if modes else rng.choice([len(active), 1, 2])
+            nmodes = len(modes) if modes else (rng.choice([len(active), 1, 2]) if wild else len(active))
         params = []
         for name in rng.sample([1, 2, 3], rng.choice([0, 0, 1, 1, 2, 3])):
             tag = rng.choice([0, 1, 1, 2, 3, 3])
